@@ -194,13 +194,12 @@ Cause(st, k) ==
             THEN (IF done THEN "dkg-done" ELSE "dkg-interrupted")
             ELSE (IF done THEN "leavecb-done" ELSE "leavecb-interrupted")
 
-\* a key file relative to the completed epoch f ("old" = as before the interrupted DKG
-\* completion, which for the first epoch means no file; after a leave a missing file is "absent")
-Cls(v, f, cause) ==
+\* a key file (v) relative to the completed epoch f and to what the file was before the last
+\* operation on the key material started (pv): "old" = untouched by that operation
+Cls(v, f, pv) ==
   IF v = f THEN "fin"
   ELSE IF v = Torn THEN "torn"
-  ELSE IF v = Absent /\ cause \in {"leavecb-interrupted", "leavecb-done"} THEN "absent"
-  ELSE IF v = f - 1 THEN "old"
+  ELSE IF v = pv THEN "old"
   ELSE IF v = Absent THEN "absent"
   ELSE "other"
 
